@@ -90,6 +90,22 @@ func detBytes(m protoreflect.Message) ([]byte, error) {
 
 func snapOf(m protoreflect.Message) *model.Snap { return model.Of(m) }
 
+// snapAny is snapOf with resolvable Any payloads compared as messages.
+func snapAny(m protoreflect.Message) *model.Snap {
+	return model.OfExpandAny(m, func(url string, value []byte) protoreflect.Message {
+		i := strings.LastIndexByte(url, '/')
+		mt, err := protoregistry.GlobalTypes.FindMessageByName(protoreflect.FullName(url[i+1:]))
+		if err != nil || url == "" {
+			return nil
+		}
+		inner := mt.New()
+		if (proto.UnmarshalOptions{AllowPartial: true}).Unmarshal(value, inner.Interface()) != nil {
+			return nil
+		}
+		return inner
+	})
+}
+
 func errStr(err error) string {
 	if err == nil {
 		return ""
